@@ -204,7 +204,18 @@ class Ctx:
         ndJsonDeserialize(IN_FILE) and serialises [n, bad: set of <<index, clause>>]."""
         if not events:
             return []
-        res = self.tlc_eval(module, events, lines=True, note=note or "trace validation", timeout=timeout, env=env)
+        try:
+            res = self.tlc_eval(module, events, lines=True, note=note or "trace validation", timeout=timeout, env=env)
+        except MachineryError as ex:
+            # The trace specification could not be evaluated on the recorded events (e.g. an observation so malformed that
+            # a CHOOSE has no witness or an index is out of range).  On the unchanged tree every trace evaluates, so this
+            # is reported as a rejection of the trace, not as a harness failure.
+            txt = str(ex)
+            if "Attempted to" in txt or "Evaluating assumption" in txt or "was not in the domain" in txt:
+                self.violation("trace-not-evaluable:" + module, "recorded events are outside what the trace specification can evaluate: "
+                               + txt[-600:], {"events_head": events[:3]})
+                return []
+            raise
         if res.get("n") != len(events):
             raise MachineryError(f"{module}: validated {res.get('n')} of {len(events)} events")
         self.events += len(events)
